@@ -318,6 +318,7 @@ prop(
         "different value is not",
         "query-string spellings whose acceptance the property does not fix ('+1', '01', ' 1') are only checked for absence of panics",
     ],
+    builds={"quick": ["b1"], "thorough": ["b1", "miri"]},
     shards={"quick": 8, "thorough": 16},
     min_evaluations={"quick": 1500000, "thorough": 50000000},
     must_see=[("types_exhaustive", 29), ("types_three_byte", 3), ("types_large", 50), ("types_value_side", 22),
@@ -399,7 +400,7 @@ prop(
 prop(
     "C14",
     level="exploration",
-    builds={"quick": ["b1", "b2"], "thorough": ["b1", "b2"]},
+    builds={"quick": ["b1", "b2"], "thorough": ["b1", "b2", "miri"]},
     rule=("ring buffer: every op sequence over {write one unit, take, close} of depth 8 (thorough 9) from every reachable cursor "
           "origin for 45 (capacity, write size, read size) triples (1-5 units, unit 1-3 bytes, incl. non-power-of-two) plus seeded "
           "sequences of 40-800 ops on capacities up to 24 units, each in lock-step with a reference VecDeque<u8>; distinct by "
